@@ -10,6 +10,30 @@ import vlib  # noqa
 vlib.setup_repo_path()
 import runlib  # noqa
 
+# VERIF_PERMSET=k: every set the compiler builds with `set(...)` iterates in an order that is a fixed pseudo-random
+# permutation (keyed by k) of its elements - iteration orders CPython's hash seeds alone would rarely produce.  The name
+# `set` is shadowed in the globals of every teaal module (no change to the repository).
+PERM = os.environ.get("VERIF_PERMSET")
+if PERM:
+    import hashlib
+    import importlib
+    import pkgutil
+    import teaal
+
+    class PermSet(set):
+        def __iter__(self):
+            items = list(set.__iter__(self))
+            items.sort(key=lambda x: hashlib.md5((repr(x) + "#" + PERM).encode()).digest())
+            return iter(items)
+
+    for m in pkgutil.walk_packages(teaal.__path__, "teaal."):
+        try:
+            mod = importlib.import_module(m.name)
+        except Exception:
+            continue
+        if "set" not in vars(mod):
+            mod.set = PermSet
+
 items = json.load(open(sys.argv[1]))
 out = []
 for it in items:
